@@ -539,3 +539,10 @@ Section Local.
     induction h as [|o t IH]; intros s A; unfold run; cbn [fold_left]; [exact A|]. apply IH. apply step_local. exact A.
   Qed.
 End Local.
+
+(* boolean form of no_root, for concrete stores *)
+Definition no_root_b (r' : root) (s : store) : bool := forallb (fun e : key * content => negb (N.eqb (fst (fst e)) r')) s.
+Lemma no_root_b_true r' s : no_root_b r' s = true -> no_root r' s.
+Proof.
+  unfold no_root_b, no_root. rewrite forallb_forall. intros H e He E. specialize (H e He). rewrite E, N.eqb_refl in H. discriminate.
+Qed.
